@@ -314,7 +314,7 @@ pub fn step(st: &RState, op: &Op) -> Pred {
             let mut t = st.tree.clone();
             t.remove_subtree(&l);
             let mut n = Node::link(&tg);
-            n.lk = if st.tree.through_link(&tg) { 0 } else { st.tree.resolved_kind(&tg) };
+            n.lk = if st.tree.through_link(&tg) || st.tree.kind(&tg) == "link" { 0 } else { st.tree.resolved_kind(&tg) };
             t.insert(&l, n);
             let post = RState { tree: t, cwd: cwd.to_string() };
             if st.tree.kind(&l) == "missing" {
@@ -442,7 +442,7 @@ fn copy_step(st: &RState, a: &str, b: &str, mode: &CopyMode, follow: bool) -> Pr
                             n.mode = m & 0o7777;
                         }
                     },
-                    Kind::Link(_) => {},
+                    Kind::Link(_) => n.lk = 0,
                 }
                 t.insert(&q, n);
                 wild.owner.push(q);
@@ -462,6 +462,10 @@ fn copy_step(st: &RState, a: &str, b: &str, mode: &CopyMode, follow: bool) -> Pr
 // ---------------------------------------------------------------------------------------------
 #[derive(Clone, Debug, PartialEq, Eq)]
 pub enum QPred {
+    /// a relative path r such that clean(dir/r) == target
+    RelTo(String, String),
+    /// rendered entry with the `rel=` field replaced by the law above: (prefix, dir, target, suffix)
+    EntryRel(String, String, String, String),
     Val(String),
     Err(Option<&'static str>),
     Any,
@@ -475,11 +479,13 @@ fn full_mode(n: &Node) -> u32 {
     }
 }
 
+/// kind under which the dirs/files helpers list an entry: they agree with is_dir / is_file, which
+/// exclude links (3 = listed by paths/all_paths only)
 fn listed_kind(n: &Node) -> u8 {
     match n.kind {
         Kind::Dir => 2,
         Kind::File(_) => 1,
-        Kind::Link(_) => n.lk,
+        Kind::Link(_) => 3,
     }
 }
 
@@ -618,12 +624,7 @@ pub fn query(st: &RState, op: &Op) -> QPred {
                 if matches!(op, ReadlinkAbs(_)) {
                     QPred::Val(t.clone())
                 } else {
-                    let par = parent_of(&p);
-                    if *t == par {
-                        QPred::Any
-                    } else {
-                        QPred::Val(ref_relative(t, &par))
-                    }
+                    QPred::RelTo(parent_of(&p), t.clone())
                 }
             },
             _ => QPred::Err(None),
@@ -638,23 +639,20 @@ pub fn query(st: &RState, op: &Op) -> QPred {
             None if is_root => QPred::Any,
             None => QPred::Err(Some("DoesNotExist")),
             Some(n) => {
-                let (alt, rel, dir, file, link) = match &n.kind {
-                    Kind::Dir => (String::new(), String::new(), true, false, false),
-                    Kind::File(_) => (String::new(), String::new(), false, true, false),
+                let (alt, dir, file, link) = match &n.kind {
+                    Kind::Dir => (String::new(), true, false, false),
+                    Kind::File(_) => (String::new(), false, true, false),
                     Kind::Link(t) => {
-                        let par = parent_of(&p);
-                        if n.lk == 0 || *t == par {
+                        if n.lk == 0 {
                             return QPred::Any;
                         }
-                        (t.clone(), ref_relative(t, &par), n.lk == 2, n.lk == 1, true)
+                        (t.clone(), n.lk == 2, n.lk == 1, true)
                     },
                 };
                 let mode = full_mode(n);
-                QPred::Val(format!(
-                    "path={} alt={} rel={} dir={} file={} link={} sdir={} sfile={} mode={:o} exec={} ro={} following=false name={:?}",
-                    p,
-                    alt,
-                    rel,
+                let prefix = format!("path={} alt={} rel=", p, alt);
+                let suffix = format!(
+                    " dir={} file={} link={} sdir={} sfile={} mode={:o} exec={} ro={} following=false name={:?}",
                     dir,
                     file,
                     link,
@@ -664,7 +662,12 @@ pub fn query(st: &RState, op: &Op) -> QPred {
                     mode & 0o111 != 0,
                     mode & 0o222 == 0,
                     Some(base_of(&p).to_string())
-                ))
+                );
+                if link {
+                    QPred::EntryRel(prefix, parent_of(&p), alt, suffix)
+                } else {
+                    QPred::Val(format!("{}{}", prefix, suffix))
+                }
             },
         },
         _ => QPred::Any,
@@ -774,8 +777,34 @@ pub fn compare_query(pred: &QPred, out: &Outcome) -> Option<(String, String)> {
     if out.panicked() {
         return Some(("panic".into(), format!("the call panicked: {}", out.msg)));
     }
+    let rel_ok = |dir: &str, target: &str, r: &str| -> bool {
+        !r.starts_with('/') && !r.is_empty() && super::go_clean::go_clean(&format!("{}/{}", dir, r)) == target
+    };
     match pred {
         QPred::Any => None,
+        QPred::RelTo(dir, target) => {
+            if !out.ok {
+                Some(("result:err-expected-ok".into(), format!("expected a relative path from {} to {}, observed {}", dir, target, out.brief())))
+            } else if !rel_ok(dir, target, &out.val) {
+                Some(("value:rel".into(), format!("expected a relative path r with clean({}/r) == {}, observed {:?}", dir, target, out.val)))
+            } else {
+                None
+            }
+        },
+        QPred::EntryRel(prefix, dir, target, suffix) => {
+            if !out.ok {
+                return Some(("result:err-expected-ok".into(), format!("expected Ok({}<rel>{}), observed {}", prefix, suffix, out.brief())));
+            }
+            if !out.val.starts_with(prefix.as_str()) || !out.val.ends_with(suffix.as_str()) || out.val.len() < prefix.len() + suffix.len() {
+                return Some(("value".into(), format!("expected {}<rel>{}, observed {:?}", prefix, suffix, out.val)));
+            }
+            let r = &out.val[prefix.len()..out.val.len() - suffix.len()];
+            if !rel_ok(dir, target, r) {
+                Some(("value:rel".into(), format!("entry.rel expected a relative path r with clean({}/r) == {}, observed {:?}", dir, target, r)))
+            } else {
+                None
+            }
+        },
         QPred::Val(v) => {
             if !out.ok {
                 Some(("result:err-expected-ok".into(), format!("expected Ok({}), observed {}", v, out.brief())))
